@@ -148,6 +148,33 @@ var Items = []Item{
 	{ID: "return-in-range-loop", Decls: "func rir%N%(s []uint64) uint64 {\n\tfor i, x := range s {\n\t\tif x == 0 && i == 1 {\n\t\t\treturn uint64(i) + 40\n\t\t}\n\t}\n\treturn 7\n}", Setup: "s := make([]uint64, 3)", Core: "r = rir%N%(s)"},
 	{ID: "return-in-infinite-loop", Decls: "func rif%N%(n uint64) uint64 {\n\tvar i uint64 = 0\n\tfor {\n\t\tif i >= n {\n\t\t\treturn i + 1\n\t\t}\n\t\ti = i + 1\n\t}\n}", Core: "r = rif%N%(4)"},
 	{ID: "return-in-loop-inside-closure", Setup: "c := new(uint64)", Core: "f := func() {\n\t\tfor i := uint64(0); i < 5; i++ {\n\t\t\tif i == 2 {\n\t\t\t\treturn\n\t\t\t}\n\t\t\t*c = *c + 1\n\t\t}\n\t}\n\tf()\n\tr = *c + 10", NoCtx: true},
+	// loop init clause × kind of variable (seeded change C01-22)
+	{ID: "for-init-assign-define-var", Core: "i := uint64(7)\n\tfor i = 0; i < 3; i++ {\n\t\tr += 2\n\t}\n\tr += i", NoCtx: true},
+	{ID: "for-init-assign-param", Decls: "func fia%N%(i uint64) uint64 {\n\tvar s uint64\n\tfor i = 1; i < 4; i++ {\n\t\ts += i\n\t}\n\treturn s*10 + i\n}", Core: "r = fia%N%(9)"},
+	{ID: "for-init-assign-var", Core: "var i uint64 = 7\n\tfor i = 0; i < 3; i++ {\n\t\tr += 2\n\t}\n\tr += i", NoCtx: true},
+	{ID: "for-init-assign-pointer-var", Setup: "a := new(uint64)\n\t*a = 42\n\tb := new(uint64)", Core: "p := a\n\tfor p = b; *p < 2; *p = *p + 1 {\n\t\tr += 1\n\t}\n\tr += *a", NoCtx: true},
+	{ID: "for-post-non-increment", Core: "for i := uint64(1); i < 40; i = i*2 + 1 {\n\t\tr += i\n\t}", NoCtx: true},
+	{ID: "for-continue-runs-post", Core: "for i := uint64(0); i < 6; i += 2 {\n\t\tif i == 2 {\n\t\t\tcontinue\n\t\t}\n\t\tr += i + 1\n\t}", NoCtx: true},
+	{ID: "for-no-init", Setup: "var i uint64 = 1", Core: "for ; i < 4; i++ {\n\t\tr += i\n\t}\n\tr = r*10 + i"},
+	{ID: "for-no-post", Core: "for i := uint64(0); i < 3; {\n\t\ti = i + 1\n\t\tr += i\n\t}", NoCtx: true},
+	// switch × position × clause ending (seeded change C02-10)
+	{ID: "switch-in-loop-clause-break", Setup: "s := make([]uint64, 4)\n\ts[2] = 5", Core: "for i := uint64(0); i < 4; i++ {\n\t\tswitch s[i] {\n\t\tcase 0:\n\t\t\tr += 1\n\t\t\tbreak\n\t\tdefault:\n\t\t\tr += 10\n\t\t}\n\t}", NoCtx: true},
+	{ID: "switch-in-loop-clause-continue", Setup: "s := make([]uint64, 4)\n\ts[2] = 5", Core: "for i := uint64(0); i < 4; i++ {\n\t\tswitch s[i] {\n\t\tcase 0:\n\t\t\tcontinue\n\t\tdefault:\n\t\t\tr += 10\n\t\t}\n\t\tr += 1\n\t}", NoCtx: true},
+	{ID: "switch-default-first", Setup: "a := uint64(2)", Core: "switch a {\n\tdefault:\n\t\tr = 8\n\tcase 2:\n\t\tr = 7\n\t}"},
+	{ID: "switch-multi-value-case", Setup: "a := uint64(3)", Core: "switch a {\n\tcase 1, 3, 5:\n\t\tr = 7\n\tcase 2:\n\t\tr = 8\n\t}"},
+	{ID: "switch-tagless", Setup: "a := uint64(3)", Core: "switch {\n\tcase a > 5:\n\t\tr = 1\n\tcase a > 2:\n\t\tr = 2\n\tdefault:\n\t\tr = 3\n\t}"},
+	{ID: "switch-effectful-tag", Decls: "func bmpsw%N%(p *uint64) uint64 {\n\t*p = *p + 1\n\treturn *p\n}", Setup: "c := new(uint64)", Core: "switch bmpsw%N%(c) {\n\tcase 5:\n\t\tr = 1\n\tcase 1:\n\t\tr = 2\n\tdefault:\n\t\tr = 3\n\t}\n\tr = r*10 + *c"},
+	{ID: "switch-with-init", Setup: "a := uint64(2)", Core: "switch b := a + 1; b {\n\tcase 3:\n\t\tr = b\n\tdefault:\n\t\tr = 9\n\t}"},
+	{ID: "switch-with-return-in-clause", Decls: "func swr%N%(a uint64) uint64 {\n\tswitch a {\n\tcase 1:\n\t\treturn 10\n\tcase 2:\n\t\treturn 20\n\t}\n\treturn 30\n}", Core: "r = swr%N%(2) + swr%N%(7)"},
+	{ID: "defer-in-function", Decls: "func dfr%N%(p *uint64) uint64 {\n\tdefer func() {\n\t\t*p = *p + 100\n\t}()\n\t*p = *p + 1\n\treturn *p\n}", Setup: "c := new(uint64)", Core: "r = dfr%N%(c)*1000 + *c"},
+	// struct literal: field order × omitted fields × constant-expression values (seeded change C01-23)
+	{ID: "struct-literal-reordered-const-expr", Decls: "type Hd%N% struct {\n\tkind byte\n\tlen  uint32\n\toff  uint64\n}", Core: "h := Hd%N%{off: 8 * 512, len: 16, kind: 3}\n\tr = h.off + uint64(h.len) + uint64(h.kind)", NoCtx: true},
+	{ID: "struct-literal-omitted-leading-const-expr", Decls: "type He%N% struct {\n\tkind byte\n\tlen  uint32\n\toff  uint64\n}", Core: "h := He%N%{off: (1 << 12) + 3}\n\tr = h.off + uint64(h.len) + uint64(h.kind)", NoCtx: true},
+	{ID: "struct-literal-reordered-vars", Decls: "type Hf%N% struct {\n\tkind byte\n\tlen  uint32\n\toff  uint64\n}", Setup: "var k byte = 3\n\tvar o uint64 = 4096", Core: "h := Hf%N%{off: o, kind: k}\n\tr = h.off + uint64(h.len) + uint64(h.kind)", NoCtx: true},
+	{ID: "struct-literal-named-const-field", Decls: "const Sec%N% uint64 = 512\n\ntype Hg%N% struct {\n\tkind byte\n\toff  uint64\n}", Core: "h := Hg%N%{off: 8 * Sec%N%}\n\tr = h.off + uint64(h.kind)", NoCtx: true},
+	// negated comparisons × operator × equal / unequal operands (seeded change C01-24)
+	{ID: "negated-comparisons-equal-operands", Setup: "a := uint64(7)\n\tb := uint64(7)", Core: "if !(a <= b) {\n\t\tr += 1\n\t}\n\tif !(a >= b) {\n\t\tr += 2\n\t}\n\tif !(a < b) {\n\t\tr += 4\n\t}\n\tif !(a > b) {\n\t\tr += 8\n\t}\n\tif !(a == b) {\n\t\tr += 16\n\t}\n\tif !(a != b) {\n\t\tr += 32\n\t}"},
+	{ID: "negated-comparisons-unequal-operands-u32", Setup: "var a uint32 = 3\n\tvar b uint32 = 9", Core: "if !(a <= b) {\n\t\tr += 1\n\t}\n\tif !(a >= b) {\n\t\tr += 2\n\t}\n\tif !(b < a) {\n\t\tr += 4\n\t}\n\tif !(b > a) {\n\t\tr += 8\n\t}\n\tif !(a == b) {\n\t\tr += 16\n\t}\n\tif !(a != b) {\n\t\tr += 32\n\t}"},
 	{ID: "if-init", Setup: "a := uint64(2)", Core: "if b := a + 1; b == 3 {\n\t\tr = b\n\t}"},
 	{ID: "for-two-vars", Core: "for i, j := uint64(0), uint64(5); i < j; i++ {\n\t\tr += 1\n\t}", NoCtx: true},
 	{ID: "multi-define-values", Core: "a, b := uint64(1), uint64(2)\n\tr = a*10 + b", NoCtx: true},
@@ -387,6 +414,23 @@ var Items = []Item{
 	{ID: "renamed-import-sync", Imports: []string{`sy "sync"`}, Core: "mu := new(sy.Mutex)\n\tmu.Lock()\n\tr = 1\n\tmu.Unlock()", NoCtx: true},
 	{ID: "renamed-import-machine-as-sync", Imports: []string{`sync2 "github.com/goose-lang/goose/machine"`}, Core: "r = uint64(len(sync2.UInt64ToString(12345)))"},
 	{ID: "dot-import-machine", Imports: []string{`. "github.com/goose-lang/goose/machine"`}, Setup: "b := make([]byte, 8)", Core: "UInt64Put(b, 77)\n\tr = UInt64Get(b)"},
+
+	// ---- type structure: recursive and mutually recursive types, types of types ----
+	{ID: "recursive-struct-pointer", Decls: "type Nd%N% struct {\n\tnext *Nd%N%\n\tv    uint64\n}", Core: "a := &Nd%N%{v: 1}\n\tb := &Nd%N%{next: a, v: 2}\n\tr = b.v*10 + b.next.v", NoCtx: true},
+	{ID: "recursive-struct-walk", Decls: "type Nw%N% struct {\n\tnext *Nw%N%\n\tv    uint64\n}\n\nfunc sumw%N%(n *Nw%N%) uint64 {\n\tif n == nil {\n\t\treturn 0\n\t}\n\treturn n.v + sumw%N%(n.next)\n}", Core: "var nilp *Nw%N%\n\ta := &Nw%N%{next: nilp, v: 1}\n\tb := &Nw%N%{next: a, v: 2}\n\tr = sumw%N%(b)", NoCtx: true},
+	{ID: "recursive-struct-slice-of-self", Decls: "type Tr%N% struct {\n\tkids []Tr%N%\n\tv    uint64\n}", Core: "t := Tr%N%{v: 3}\n\tr = t.v + uint64(len(t.kids))", NoCtx: true},
+	{ID: "recursive-struct-map-of-self", Decls: "type Tm%N% struct {\n\tkids map[uint64]*Tm%N%\n\tv    uint64\n}", Core: "t := &Tm%N%{kids: make(map[uint64]*Tm%N%), v: 3}\n\tt.kids[1] = t\n\tr = t.kids[1].v", NoCtx: true},
+	{ID: "mutually-recursive-structs", Decls: "type Ma%N% struct {\n\tb *Mb%N%\n\tv uint64\n}\n\ntype Mb%N% struct {\n\ta *Ma%N%\n\tw uint64\n}", Core: "x := &Ma%N%{v: 1}\n\ty := &Mb%N%{a: x, w: 2}\n\tx.b = y\n\tr = x.b.w*10 + y.a.v", NoCtx: true},
+	{ID: "mutually-recursive-functions", Decls: "func evn%N%(n uint64) bool {\n\tif n == 0 {\n\t\treturn true\n\t}\n\treturn odd%N%(n - 1)\n}\n\nfunc odd%N%(n uint64) bool {\n\tif n == 0 {\n\t\treturn false\n\t}\n\treturn evn%N%(n - 1)\n}", Core: "if evn%N%(4) {\n\t\tr = 1\n\t}"},
+	{ID: "mutually-recursive-structs-via-slices", Decls: "type Dr%N% struct {\n\tentries []En%N%\n\tv       uint64\n}\n\ntype En%N% struct {\n\tsubs []Dr%N%\n\tw    uint64\n}", Core: "d := Dr%N%{v: 1}\n\te := En%N%{w: 2}\n\tr = d.v*10 + e.w + uint64(len(d.entries)) + uint64(len(e.subs))", NoCtx: true},
+	{ID: "func-type-and-struct-cycle", Decls: "type Vs%N% func(Nv%N%) bool\n\ntype Nv%N% struct {\n\tvisit Vs%N%\n\ta     uint64\n}", Core: "n := Nv%N%{a: 3}\n\tr = n.a", NoCtx: true},
+	{ID: "struct-field-type-declared-later", Decls: "type Fe%N% struct {\n\tin Fl%N%\n}\n\ntype Fl%N% struct {\n\ta uint64\n}", Core: "o := Fe%N%{in: Fl%N%{a: 4}}\n\tr = o.in.a", NoCtx: true},
+	{ID: "method-before-receiver-type", Decls: "func (m Mr%N%) get() uint64 {\n\treturn m.a + 1\n}\n\ntype Mr%N% struct {\n\ta uint64\n}", Core: "r = Mr%N%{a: 4}.get()"},
+	{ID: "named-over-named-struct", Decls: "type Ns1%N% struct {\n\ta uint64\n}\n\ntype Ns2%N% Ns1%N%", Core: "o := Ns2%N%{a: 4}\n\tr = o.a", NoCtx: true},
+	{ID: "deep-type-nesting", Core: "m := make(map[uint64][]*[]uint64)\n\tvar s []uint64 = make([]uint64, 2)\n\ts[1] = 5\n\tm[1] = append(m[1], &s)\n\tr = (*m[1][0])[1]", NoCtx: true},
+	{ID: "local-type-declaration", Core: "type lt struct {\n\t\ta uint64\n\t}\n\to := lt{a: 4}\n\tr = o.a", NoCtx: true},
+	{ID: "func-type-mentions-struct", Decls: "type Fs%N% struct {\n\tf func(*Fs%N%) uint64\n\ta uint64\n}", Core: "o := &Fs%N%{a: 4}\n\to.f = func(x *Fs%N%) uint64 {\n\t\treturn x.a + 1\n\t}\n\tr = o.f(o)", NoCtx: true},
+	{ID: "long-parameter-list", Decls: "func lp%N%(a uint64, b uint64, c uint64, d uint64, e uint64, f uint64, g uint64, h uint64, i uint64, j uint64, k uint64, l uint64) uint64 {\n\treturn a + b*2 + c*3 + d + e + f + g + h + i + j + k + l*7\n}", Core: "r = lp%N%(1, 2, 3, 4, 5, 6, 7, 8, 9, 10, 11, 12)"},
 
 	// ---- look-alikes: user definitions named like GooseLang library functions (captured by later emitted code) ----
 	{ID: "user-func-SliceGet", Decls: "func SliceGet(x uint64) uint64 {\n\treturn x + 100\n}", Setup: "s := make([]uint64, 2)\n\ts[1] = 5", Core: "r = s[1] + SliceGet(1)", Known: "c02LibraryNameCapture"},
